@@ -326,3 +326,91 @@ def bug_selftest():
         ok = r.violated in expect
         res.append((bug, r.violated, r.states, ok))
     return res
+
+
+# --------------------------------------------------------------------------------------
+# Layer-2 conformance (spec/TraceRetry.tla): DRIFT, never a verdict
+# --------------------------------------------------------------------------------------
+def l2_eligible(sc, res):
+    if "evs" not in res or res.get("info", {}).get("unreached"):
+        return False
+    o = sc.get("opts", {})
+    if o.get("pingMs") or o.get("hookEvents") or o.get("directQoS0") or o.get("cleanSession"):
+        return False
+    if sc.get("plan", {}).get("inbound"):
+        return False
+    if any(r["k"] not in ("pub", "sub", "unsub", "peerclose", "sleep", "release") for r in sc["reqs"]):
+        return False
+    return True
+
+
+def l2_trace(res):
+    """Project a recorded trace for TraceRetry: cut at Idle, give every PUBREL the tag of its message."""
+    evs = []
+    tagof = {}
+    for e in res["evs"]:
+        if e["e"] == "Idle":
+            break
+        if e["e"] == "Write":
+            e = dict(e)
+            if e["p"] == "PUBLISH":
+                tagof[e["id"]] = e["tag"]
+            e["rtag"] = tagof.get(e["id"], 0) if e["p"] == "PUBREL" else 0
+            if e["p"] in ("PINGREQ", "DISCONNECT") or not e.get("req", True):
+                continue
+        evs.append(e)
+    return evs
+
+
+def l2_validate(scenarios, results, max_groups=None, timeout=600):
+    """Returns (validated, drift) where drift = [(scenario id, first unmatched event index, event)]."""
+    groups = {}
+    for sc in scenarios:
+        res = results.get(sc["id"])
+        if not res or not l2_eligible(sc, res):
+            continue
+        wl = [r for r in sc["reqs"] if r["k"] in ("pub", "sub", "unsub")]
+        mwl = []
+        for r in wl:
+            if r["k"] == "pub":
+                mwl.append({"k": "pub", "q": r.get("q", 0)})
+            elif r["k"] == "sub":
+                mwl.append({"k": "sub", "subs": [{"f": s["f"], "q": s["q"]} for s in r["subs"]]})
+            else:
+                mwl.append({"k": "unsub", "fs": list(r["fs"])})
+        if not mwl:
+            continue
+        o = sc.get("opts", {})
+        key = (json.dumps(mwl, sort_keys=True), bool(o.get("deliverOnRel")), bool(o.get("alwaysResub")), bool(o.get("respTimeoutMs")))
+        groups.setdefault(key, []).append(sc["id"])
+    keys = sorted(groups)
+    if max_groups:
+        keys = keys[:max_groups]
+    drift, validated, states = [], 0, 0
+
+    def one(key):
+        mwl, dor, ar, rt = key
+        ids = groups[key]
+        text = "\n".join(json.dumps({"id": i, "evs": l2_trace(results[i])}, sort_keys=True) for i in ids) + "\n"
+        mc = "---- MODULE MCTrace ----\nEXTENDS TraceRetry\nWL == %s\n====\n" % tla(json.loads(mwl))
+        cfg = ["SPECIFICATION TSpec", "CONSTANTS", "  Workload <- WL", "  MaxFaults = 8", "  MaxGen = 9", "  DeliverOnRel = %s" % tla(dor),
+               "  SessionChoices = {TRUE, FALSE}", "  AlwaysResub = %s" % tla(ar), "  RespTimeout = %s" % tla(rt)]
+        cfg += ["  %s = FALSE" % b for b in BUGS_OFF]
+        cfg += ["CHECK_DEADLOCK FALSE", "CONSTRAINT HW", "POSTCONDITION Report"]
+        r = vlib.tlc("MCTrace", cfg="MCTrace.cfg", files={"MCTrace.tla": mc, "MCTrace.cfg": "\n".join(cfg) + "\n", "l2traces.ndjson": text},
+                     workers=1, timeout=timeout, deque=True, heap="3g")
+        rep = r.printed("REPORT")
+        if not rep:
+            raise vlib.Infra("TraceRetry run failed:\n" + r.out[-3000:])
+        return json.loads(vlib.parse_tla_value(rep[-1])), r.states
+
+    with ThreadPoolExecutor(max_workers=max(1, min(8, vlib.NCPU // 2))) as ex:
+        for rep, st in ex.map(one, keys):
+            states += st
+            for t in rep:
+                if t["hw"] == t["len"] + 1:
+                    validated += 1
+                else:
+                    evs = l2_trace(results[t["id"]])
+                    drift.append((t["id"], t["hw"], evs[t["hw"] - 1] if 0 < t["hw"] <= len(evs) else None))
+    return validated, drift, states
